@@ -252,7 +252,10 @@ func newCmap4(cm tables.CmapSubtable4) (cmap4, error) {
 		// some fonts use 0xFFFF for idRangeOff for the last segment
 		if entry.start != 0xFFFF && idRangeOffset != 0 {
 			// we resolve the indexes
-			count := int(entry.end - entry.start + 1)
+			if entry.end < entry.start {
+				return nil, errors.New("invalid cmap subtable format 4 segment")
+			}
+			count := int(entry.end) - int(entry.start) + 1
 			resolved += count
 			if resolved > 0x10000 {
 				return nil, errors.New("invalid cmap subtable format 4 overlapping segments")
